@@ -8,6 +8,7 @@ import (
 	"testing"
 
 	biscuit "github.com/biscuit-auth/biscuit-go/v2"
+	"github.com/biscuit-auth/biscuit-go/v2/datalog"
 	"pgregory.net/rapid"
 
 	"verif/internal/bridge"
@@ -382,6 +383,20 @@ func checkC01(c C01Case, rec *obs.Recorder) *obs.Violation {
 			return obs.Violf("mutation %+v on a %d-block %s token, verified under %s root: reference says accept=%v (%s), library says accept=%v (%s)",
 				c.Mut, len(c.Target.Blocks), sealed, c.Verify, want.OK, want.Reason, got, detail)
 		}
+		// a verifier that keeps one Unmarshaler value: the presented token is parsed, then a genuine
+		// token (the unmutated target) is parsed with the same value, and only then is the first one
+		// verified -- the verdict is about the token that was presented
+		if len(historyBytes) > 0 {
+			u := &biscuit.Unmarshaler{Symbols: &datalog.SymbolTable{}}
+			if first, err := u.Unmarshal(append([]byte{}, data...)); err == nil {
+				_, _ = u.Unmarshal(append([]byte{}, tgtBytes...))
+				_, verr := first.AuthorizerFor(biscuit.WithSingularRootPublicKey(key), bridge.WorldOpts())
+				if (verr == nil) != want.OK {
+					return obs.ViolK("kept-unmarshaler", "mutation %+v on a %d-block %s token, verified under %s root after the same Unmarshaler value had parsed a genuine token: reference says accept=%v (%s), library says accept=%v (%v)",
+						c.Mut, len(c.Target.Blocks), sealed, c.Verify, want.OK, want.Reason, verr == nil, verr)
+				}
+			}
+		}
 		return nil
 	}
 	// byte-level mutation: decoders may legitimately differ on protobuf corner cases,
@@ -427,7 +442,7 @@ func drawC01(t *rapid.T) C01Case {
 func TestC01(t *testing.T) {
 	rec := obs.New("C01")
 	defer rec.Flush(true)
-	rec.SetExtra("rule", "rapid histories (target token: build, 0-4 appends, optional seal, serialize; donor token of another or the same issuer) x one mutation from a 30-entry catalogue applied to the envelope decoded by the independent reader and re-encoded (bit flips in block/key/signature/proof, field swap inside a token, field or whole-block copy from the donor, reorder, insert copy / attacker-signed block, remove, truncate keeping or replacing the proof, strip last block, re-key with attacker keys, proof replaced by attacker secret / a 64-byte secret whose second half is the announced public key / a secret of another length / donor proof / attacker seal / nothing / both members, seal by the legitimate holder, a genuine seal with bytes added / doubled / removed, legitimate append and complete attacker-signed chain built with this package's own signer, algorithm value, key/signature size, root key id, raw byte flip / truncation) x verifying root (own, donor, attacker). Every stage of the history must verify under its own root, and two tokens appended to a drawn stage must verify and leave every earlier token's bytes unchanged. Oracle: independent ed25519 chain walk, both directions for structural mutations, soundness for raw byte mutations (thorough adds native fuzzing of the bytes with the soundness oracle). Non-trivial = the mutated token still unmarshals and differs from every token of the history; distinct by (mutation kind, field, position, length, sealed, root, bytes).")
+	rec.SetExtra("rule", "rapid histories (target token: build, 0-4 appends, optional seal, serialize; donor token of another or the same issuer) x one mutation from a 30-entry catalogue applied to the envelope decoded by the independent reader and re-encoded (bit flips in block/key/signature/proof, field swap inside a token, field or whole-block copy from the donor, reorder, insert copy / attacker-signed block, remove, truncate keeping or replacing the proof, strip last block, re-key with attacker keys, proof replaced by attacker secret / a 64-byte secret whose second half is the announced public key / a secret of another length / donor proof / attacker seal / nothing / both members, seal by the legitimate holder, a genuine seal with bytes added / doubled / removed, legitimate append and complete attacker-signed chain built with this package's own signer, algorithm value, key/signature size, root key id, raw byte flip / truncation) x verifying root (own, donor, attacker). Every stage of the history must verify under its own root, and two tokens appended to a drawn stage must verify and leave every earlier token's bytes unchanged. Oracle: independent ed25519 chain walk, both directions for structural mutations (the verdict is also taken after the same Unmarshaler value has parsed the genuine target), soundness for raw byte mutations (thorough adds native fuzzing of the bytes with the soundness oracle). Non-trivial = the mutated token still unmarshals and differs from every token of the history; distinct by (mutation kind, field, position, length, sealed, root, bytes).")
 	rec.SetExtra("assumptions", []string{"crypto/ed25519 is trusted", "root key id and protobuf encoding slack are unsigned and not claimed tamper-evident", "shows resistance to the catalogue, not cryptographic unforgeability"})
 	harness.RunWith(t, harness.Spec[C01Case]{ID: "C01", Draw: drawC01, Check: checkC01}, rec)
 }
